@@ -26,6 +26,9 @@ type mockTree struct {
 	// fault injection: fail the k-th callback (1-based; 0 = never)
 	failAt  int
 	failErr error
+	// how the fault shows: "" = the callback returns failErr; otherwise it panics — with the error, its text,
+	// a value that prints as the text, or a value that says nothing ("int", "struct")
+	failPanic string
 	ncalls  int
 	leafref map[string]string // canonical path → canonical target path for FollowLeafRef
 	hash    bool              // deterministic hash-valued tree shared with the Lean driver (Drv/C02.lean)
@@ -90,10 +93,29 @@ func (t *mockTree) tick(what string) error {
 	t.ncalls++
 	t.calls = append(t.calls, what)
 	if t.failAt != 0 && t.ncalls == t.failAt {
-		return t.failErr
+		switch t.failPanic {
+		case "":
+			return t.failErr
+		case "error":
+			panic(t.failErr)
+		case "string":
+			panic(t.failErr.Error())
+		case "stringer":
+			panic(faultStringer{t.failErr.Error()})
+		case "int":
+			panic(1000 + t.failAt)
+		default:
+			panic(&faultOpaque{t.failAt})
+		}
 	}
 	return nil
 }
+
+type faultStringer struct{ s string }
+
+func (f faultStringer) String() string { return f.s }
+
+type faultOpaque struct{ k int }
 
 func (e *mockEntry) Navigate(path *sdcpb.Path) (xpath.Entry, error) {
 	if err := e.t.tick("Navigate(" + canonPath(path) + ")"); err != nil {
